@@ -53,12 +53,22 @@ func (t *wtable) ctypeOf(c wcol) ctype {
 	case 'b':
 		return tB
 	case 't':
+		if t.format == "parquet" {
+			return tS
+		}
 		return tT
 	}
 	return tO
 }
 
 func (t *wtable) bytes() []byte {
+	if t.format == "parquet" {
+		b, err := t.parquetBytes()
+		if err != nil {
+			panic("harness: cannot build parquet fixture: " + err.Error())
+		}
+		return b
+	}
 	var sb strings.Builder
 	if t.format == "csv" {
 		for i, c := range t.cols {
